@@ -96,6 +96,7 @@ func splitTop(s string, sep byte, firstOnly bool) []string {
 	var parts []string
 	var cur strings.Builder
 	depth := 0
+	var closers []byte
 	for i := 0; i < len(s); i++ {
 		c := s[i]
 		switch {
@@ -129,12 +130,15 @@ func splitTop(s string, sep byte, firstOnly bool) []string {
 				}
 			}
 		case c == '(' || c == '[' || c == '{':
-			depth++
+			// a simple block ends at ITS closing token; any other closer inside it is an ordinary token
+			closers = append(closers, map[byte]byte{'(': ')', '[': ']', '{': '}'}[c])
+			depth = len(closers)
 			cur.WriteByte(c)
 		case c == ')' || c == ']' || c == '}':
-			if depth > 0 {
-				depth--
+			if len(closers) > 0 && closers[len(closers)-1] == c {
+				closers = closers[:len(closers)-1]
 			}
+			depth = len(closers)
 			cur.WriteByte(c)
 		case c == sep && depth == 0 && !(firstOnly && len(parts) > 0):
 			parts = append(parts, cur.String())
